@@ -5,7 +5,7 @@ import vlib, suites
 from fhgen import *
 
 RULE = ("all pairs of adjacent functions (same module) and adjacent modules with different sp deltas, three DWARF "
-        "presentations, and functions that end their image with nothing mapped behind (incl. the highest image), both architectures, probed at the boundary as return address and as instruction "
+        "presentations, Mach-O functions (compact unwind and DWARF-deferred) whose last instruction is a call, and functions that end their image with nothing mapped behind (incl. the highest image), both architectures, probed at the boundary as return address and as instruction "
         "pointer; distinct = (arch, presentation, same-module|cross-module, address kind)")
 ASSUMPTIONS = ["stack reader is a pure partial function"]
 TRUSTED_BASE = ["modelled not verified: gimli FDE/row selection"]
@@ -65,12 +65,55 @@ def generate(rng, tier):
                     ln = s.add("unwind U C %s %s %s S" % (ak, hx(e), regs), tag="%s:%s:%s:%s" % (arch, pres, kind, ak))
                     s.meta[ln] = {"sp": sp, "delta": gran * k, "arch": arch}
             out.append(("adjacent-%s-%d" % (arch, rep), s))
+    # Mach-O: functions whose last instruction is a call (compact unwind entries and, for DWARF-deferred entries, the FDE
+    # rows are both looked up at the return address minus one); the return address is the start of the next function
+    import machotruth as mt
+    for arch in ("x86", "a64"):
+        for rep in range(3 if tier == "quick" else 30):
+            s = Script(arch)
+            prog = mt.make_program(rng, arch)
+            nr = [f for f in prog["funcs"] if getattr(f, "noreturn", False)]
+            if not nr:
+                continue
+            base = 0x100000000 + 0x10000 * rng.below(256)
+            mt.module_macho(s, "M", prog, base, 0x100000000, rng, merge=(rep % 2 == 0))
+            s.add("new U"); s.add("add U M")
+            found = 0
+            for attempt in range(400):
+                if found >= (8 if tier == "quick" else 24):
+                    break
+                sc = mt.make_scenario(rng, prog, base, 0x7ffe0000 + 0x1000 * rng.below(8), rng.range(2, 5))
+                fr = sc["frames"]
+                thru = [x for x in fr if x["kind"] == "caller" and getattr(x["func"], "noreturn", False)
+                        and x["pc"] == base + x["func"].start + x["func"].length]
+                if not thru or (found % 2 == 0 and attempt < 300 and not any(x["func"].dwarf for x in thru)):
+                    continue          # every other scenario goes through a DWARF-deferred function of this kind
+                found += 1
+                mid = "S%d" % attempt
+                s.mem(mid, sorted(sc["mem"].items()))
+                mask = (1 << 48) - 1
+                x0 = fr[0]
+                regs = s.regs_x86(x0["pc"], x0["sp"], x0["fp"]) if arch == "x86" else s.regs_a64(mask, x0["lr"], x0["sp"], x0["fp"])
+                s.add("newcache C")
+                ln = s.add("trace U C %s %s %s %d" % (hx(x0["pc"]), regs, mid, len(fr) + 3), tag="%s:macho-noreturn:%s" % (arch, x0["func"].shape))
+                k2 = arch == "x86" and x0["insn"] == "jmp" and x0["index"] > 0 and x0["func"].insns[x0["index"] - 1][1].kind == "add"
+                if not k2:          # (the innermost frame may sit on the known finding S19 of C02: not this property's subject)
+                    s.meta[ln] = {"chain": [[(x["ra"] & mask) if arch == "a64" else x["ra"], x["caller"][0], x["caller"][1]] for x in fr[:-1]]}
+            out.append(("macho-noreturn-%s-%d" % (arch, rep), s))
     return out
 
 def judge(script, impl):
     bad = []
     for ln, m in script.meta.items():
         line = impl.get(ln)
+        if "chain" in m:
+            if line is None:
+                continue
+            items = [x.strip() for x in line[5:].split("|")]
+            exp = ["ok ra 0x%x sp=0x%x fp=0x%x" % tuple(c) for c in m["chain"]] + ["ok none"]
+            if items[1:] != exp:
+                bad.append((ln, "walk through a function that ends in a call differs from the true chain:\ngot : %s\ntrue: %s" % (items[1:], exp)))
+            continue
         o = vlib.outcome(line)
         rg = vlib.regs_of(line)
         if o[0] != "ok" or o[1] != "some" or rg is None:
